@@ -475,6 +475,76 @@ def pack1(p, res):
     return n
 
 
+def aut1(p, res):
+    """composition of automorphism keys (`glwe_automorphism_key_automorphism[_assign]`): every row (-pi_p^-1(s) a + s, a) is first mapped by pi_p - the Galois element the key itself
+    carries (`X.p()`) - to a ciphertext under s, key-switched, and mapped back by pi_p^-1 (`galois_element_inv` of the same element).  With the two exchanged the row is mapped to
+    a ciphertext under pi_p^-2(s) before the key-switch: garbage unless p^2 = 1 (the only case the tests use).  Decided by dominance: an automorphism that dominates the key-switch
+    takes `p()`, one that the key-switch dominates takes the inverse."""
+    n = 0
+    for f in sorted(p.lib_fns(), key=lambda x: x.uid):
+        if f.kind == "Closure" or f.is_test() or not f.uid.startswith("poulpy_core::automorphism") or "tmp_bytes" in f.name:
+            continue
+        ks = [bi for bi, t in f.calls() if (f.callee_def(t) or {}).get("n", "").startswith("glwe_keyswitch")]
+        au = [(bi, t) for bi, t in f.calls() if (f.callee_def(t) or {}).get("n") in ("vec_znx_automorphism", "vec_znx_automorphism_assign")]
+        if not ks or not au:
+            continue
+        flow = Flow(f, transparent=("into", "from", "clone", "as_i64"))
+        g = CFG(f)
+        dom = g.dom()
+
+        def kind(op):
+            ks_ = set()
+            for r in flow.op_roots(op):
+                if r[0] == "call":
+                    nm = (f.callee_def(f.blocks[r[1]]["t"]) or {}).get("n")
+                    ks_.add({"p": "own", "galois_element_inv": "inverse"}.get(nm, "other"))
+                else:
+                    ks_.add("other")
+            return ks_.pop() if len(ks_) == 1 else "other"
+        # order inside one iteration: reachability with the back edges removed
+        # (only of the loops that contain the key-switch: an inner loop over columns is left through its header)
+        shared = {l["header"] for l in g.loops() if any(kb in l["body"] for kb in ks)}
+        fwd = {b: [s2 for s2 in g.succ[b] if not (s2 in dom.get(b, ()) and s2 in shared)] for b in g.reach}
+
+        def reaches(x, ys):
+            st, seen = [x], set()
+            while st:
+                b = st.pop()
+                if b in seen:
+                    continue
+                seen.add(b)
+                if b in ys and b != x:
+                    return True
+                st.extend(fwd.get(b, ()))
+            return False
+        pos_of = {}
+        for bi, t in au:
+            before, after = reaches(bi, set(ks)), any(reaches(kb, {bi}) for kb in ks)
+            pos_of[bi] = "before" if before and not after else ("after" if after and not before else "?")
+        if "before" not in pos_of.values() or "after" not in pos_of.values():
+            continue  # not a bracketed key-switch (e.g. the ciphertext automorphism: key-switch, then the map itself)
+        n += 1
+        bad = None
+        sites = []
+        for bi, t in au:
+            k = kind(t["a"][1])
+            pos = pos_of[bi]
+            sites.append((pos, k))
+            if k == "other" or pos == "?":
+                continue
+            if (pos == "before" and k != "own") or (pos == "after" and k != "inverse"):
+                bad = bad or (pos, k, t["l"])
+        if bad:
+            res.bad("AUT-1", f.pretty, "automorphism-side:%s:%s" % (bad[0], bad[1]),
+                    "%s applies the %s Galois element %s its key-switch: the rows of an automorphism key for p are brought under s by pi_p (the element the key carries) and taken back by "
+                    "pi_p^-1 afterwards - exchanged, the composition is wrong for every p with p^2 != 1" % (f.pretty, {"own": "key's own", "inverse": "inverse"}[bad[1]], bad[0]), site=f.where(bad[2]))
+        elif any(k == "other" or pos == "?" for pos, k in sites):
+            res.undec("AUT-1", "%s: an automorphism exponent / position is not recognised (%s)" % (f.pretty, sites))
+        else:
+            res.ok("AUT-1", {"fn": f.pretty, "sites": sites})
+    return n
+
+
 def sign4(p, res):
     """products / sums of Galois elements are reduced in Z/2NZ: a `%` whose dividend is built from the stored Galois element of a key (`p()`) or a parameter named `p` and
     whose result is stored as a Galois element (`set_p`) divides by `cyclotomic_order()` (or 2 * n()), never by the ring degree"""
@@ -521,6 +591,7 @@ def run(res, tier):
                        "the independence of the result from the gadget shape beyond these clauses are not decided.")
     res.rule("KS-1", "digit loops: step == dsize and offset + limb_offset == dsize - 1 on every path")
     res.rule("KS-2", "digit loops: the limb count given to a digit group is at least the number of limbs its strided copy selects, up to the rows of the key")
+    res.rule("AUT-1", "composition of automorphism keys: the automorphism before the key-switch takes the key's own Galois element, the one after it the inverse")
     res.rule("SIGN-3", "the Galois-element helpers use the ring degree only as 2 * n() / cyclotomic_order()")
     res.rule("WR-4", "raw-slice vmp kernels taking limb_offset: the zero fill starts one stride after the last written limb")
     res.rule("PACK-1", "packing butterflies (pack_internal, GLWEPacker::combine): every path computes (a + b X^t + phi(a - b X^t)) / 2, (a + phi(a)) / 2 or (b X^t - phi(b X^t)) / 2")
@@ -539,6 +610,8 @@ def run(res, tier):
         res.floor("KS-1", "digit loops of the key-switching family", n, 1)
         n2 = ks2_report(res)
         res.floor("KS-2", "digit groups sized inside a digit loop", n2, 1)
+        na = aut1(p, res)
+        res.floor("AUT-1", "automorphism-key compositions", na, 2)
         from .c09 import sign3
         n3 = sign3(p, res)
         res.floor("SIGN-3", "Galois-element helpers", n3, 2)
